@@ -12,6 +12,7 @@ import (
 	"net"
 	"os"
 	"path/filepath"
+	"strings"
 	"sync"
 	"time"
 
@@ -357,7 +358,13 @@ func Kind(err error) string {
 
 // LogName returns a login name (no path separators).
 func LogName(r *rand.Rand) string {
-	switch r.Intn(5) {
+	switch r.Intn(8) {
+	case 5: // upper and mixed case (login names are case-sensitive)
+		return "JSmith" + gen.Ident(r, 2)
+	case 6:
+		return "ÉMILE-" + strings.ToUpper(gen.Ident(r, 3))
+	case 7: // long: 48..120 bytes
+		return strings.Repeat(gen.Ident(r, 6)+".", 7+r.Intn(10)) + "x"
 	case 0:
 		return gen.Ident(r, 1+r.Intn(8))
 	case 1:
